@@ -316,7 +316,9 @@ def rand_wire_pkt(R, flags=None):
     fl |= extra
     ty = fl & 0x17
     opts, ohex, eol = rand_options(R, ty == 2)
-    ipopts = ("01" * R.choice([4, 8])) if v == 4 and R.random() < 0.1 else ""
+    # IPv4 options: NOPs, and multi-byte ones (Router Alert, Record Route, Timestamp) -- one option is not one byte
+    ipopts = R.choice(["01" * 4, "01" * 8, "94040000", "0707040000000000", "94040000" + "01010101", "440c0500" + "00" * 8, "8307040a00000100"]) \
+        if v == 4 and R.random() < 0.12 else ""
     spec = {"v": v, "ttl": R.choice([0, 1, 31, 32, 33, 53, 60, 63, 64, 65, 127, 128, 129, 200, 254, 255, R.randrange(256)]),
             "tos": R.choice([0, 0, 0, 1, 2, 3, 0x10, 0xFC]), "id": R.choice([0, 0, 1, R.randrange(65536)]),
             "df": R.random() < 0.6, "evil": R.random() < 0.05, "ipopts": ipopts,
